@@ -790,6 +790,7 @@ impl ErasedNode for Node {
             return false;
         };
 
+        let min_height = state.recompute_heap.min_height();
         let can_recompute_now = match parent_kind {
             // these nodes aren't parents
             Kind::Constant(_) | Kind::Var(_) => panic!(),
@@ -805,9 +806,9 @@ impl ErasedNode for Node {
             before computing it.  If [parent] has a single child (i.e. [node]), then
             this amounts to checking that [parent] won't be invalidated, i.e. that
             [parent]'s scope has already stabilized. */
-            Kind::BindLhsChange { .. } => child.height() > parent.created_in.height(),
-            Kind::MapRef(_) | Kind::MapWithOld(_) | Kind::Map(_) => {
-                child.height() > parent.created_in.height()
+            Kind::BindLhsChange { .. } | Kind::MapRef(_) | Kind::MapWithOld(_) | Kind::Map(_) => {
+                let scope_height = parent.created_in.height();
+                child.height() > scope_height && min_height > scope_height
             }
             // | Freeze _ -> node.height > Scope.height parent.created_in
             // | If_test_change _ -> node.height > Scope.height parent.created_in
@@ -820,11 +821,13 @@ impl ErasedNode for Node {
             {[
             node.height > Scope.height parent.created_in
             ]} */
-            Kind::BindMain { lhs_change, .. } => child.height() > lhs_change.height(),
+            Kind::BindMain { lhs_change, .. } => {
+                child.height() > lhs_change.height() && min_height > lhs_change.height()
+            }
             // | Kind::If_then_else i -> node.height > i.test_change.height
             // | Join_main j -> node.height > j.lhs_change.height
         };
-        if can_recompute_now || parent.height() <= state.recompute_heap.min_height() {
+        if can_recompute_now || parent.height() <= min_height {
             /* If [parent.height] is [<=] the height of all nodes in the recompute heap
             (possibly because the recompute heap is empty), then we can recompute
             [parent] immediately and save adding it to and then removing it from the
